@@ -1,7 +1,7 @@
 (* Props/C13.v -- statements claimed for C13 (geometric measures), about Model/TriaGeom.v over R. *)
 From Coq Require Import List Arith Reals.
 From LaPyV Require Import Base.Scalar Base.Vec3 Base.ListAux Base.Sparse Model.TetMesh Model.TriaAdj Model.TriaOrient
-  Model.Fem Model.TriaGeom Proofs.SparseP Proofs.FemTriaP Proofs.TriaGeomP Proofs.TriaOrientP Proofs.TriaAdjP Proofs.InvarianceP Proofs.VolumeTransP Proofs.NormalOffsetP.
+  Model.Fem Model.TriaGeom Proofs.SparseP Proofs.FemTriaP Proofs.TriaGeomP Proofs.TriaOrientP Proofs.TriaAdjP Proofs.InvarianceP Proofs.VolumeTransP Proofs.NormalOffsetP Proofs.AreaInvarP.
 Import ListNotations.
 Open Scope R_scope.
 
@@ -104,3 +104,14 @@ Theorem C13_normal_offset_defined_iff_oriented : forall d v ts,
   (is_oriented ts = false -> normal_offset Rops d v ts = Err ValueError).
 Proof. exact normal_offset_defined_iff_oriented. Qed.
 Print Assumptions C13_normal_offset_defined_iff_oriented.
+
+(* area: invariant under every rigid motion p -> Q p + b with Q^T Q = I (reflections included), and multiplied by s^2 under p -> s p *)
+Theorem C13_area_invariant_under_rigid_motion : forall Q b v ts, orthogonal Q -> tris_in_range (length v) ts ->
+  area Rops (map (rigid Q b) v) ts = area Rops v ts.
+Proof. exact area_rigid_invariant. Qed.
+Print Assumptions C13_area_invariant_under_rigid_motion.
+
+Theorem C13_area_scales_with_the_square : forall s v ts, tris_in_range (length v) ts ->
+  area Rops (map (vscaleR s) v) ts = s * s * area Rops v ts.
+Proof. exact area_scales_with_square. Qed.
+Print Assumptions C13_area_scales_with_the_square.
